@@ -452,7 +452,7 @@ class G4(G):
 
     def loc(self, depth=2):
         r = self.r
-        kind = r.choice(["scalar", "map", "map", "arr", "arr", "arrc", "map2", "struct", "maparr", "arrmap"] if depth > 0
+        kind = r.choice(["scalar", "map", "map", "arr", "arr", "arrc", "map2", "struct", "maparr", "arrmap", "deep"] if depth > 0
                         else ["scalar", "map", "arr", "arrc"])
         self.features.add(kind)
         p = self.base()
@@ -490,6 +490,16 @@ class G4(G):
             i, idesc = self.index()
             inner = k + ["PUSH0", "MSTORE", ("PUSH", p), ("PUSH", 32), "MSTORE", ("PUSH", 64), "PUSH0", "SHA3"]
             return inner + ["PUSH0", "MSTORE", ("PUSH", 32), "PUSH0", "SHA3"] + i + ["ADD"], f"m{p}[{kd}][[{idesc}]]"
+        if kind == "deep":
+            # mapping(k1 => Struct[]) with a mapping field: keccak(k . (keccak(keccak(k1 . p)) + 2*i + c))  (n-ary sum)
+            k1, k1d = self.key()
+            k, kd = self.key()
+            i, idesc = self.index()
+            c = r.choice([0, 1])
+            inner = k1 + ["PUSH0", "MSTORE", ("PUSH", p), ("PUSH", 32), "MSTORE", ("PUSH", 64), "PUSH0", "SHA3"]
+            elem = inner + ["PUSH0", "MSTORE", ("PUSH", 32), "PUSH0", "SHA3"] + i + [("PUSH", 2), "MUL", "ADD", ("PUSH", c), "ADD"]
+            return elem + [("PUSH", 32), "MSTORE"] + k + ["PUSH0", "MSTORE", ("PUSH", 64), "PUSH0", "SHA3"], \
+                f"m{p}[{k1d}][[{idesc}]].f{c}[{kd}]"
         if kind == "arrmap":
             # a[i] is a mapping: keccak(k . (keccak(p) + i))
             k, kd = self.key()
